@@ -907,4 +907,153 @@ theorem runCA_enc (cfg : Cfg) (hal : ∀ s, Disjoint s.base s.mem.length (cfg.al
         cases h
         exact ⟨b2, j2, c2, e2, by simp [run, hs1, hr2], hi2, hb2⟩
 
+/-- `InvA` spelled out on the addressed state itself -/
+structure WF (s : CA) : Prop where
+  sp : ∃ n : Nat, s.sp = s.base + VS * n ∧ n ≤ s.mem.length
+  fp : ∃ k : Nat, s.fp = s.base + VS * k
+  frames : ∀ f ∈ s.frames, ∃ k : Nat, f.fp = s.base + VS * k
+  heap : ∀ (u : Nat) (a : Int), s.heap[u]? = some (UvA.opn a) → ∃ k : Nat, a = s.base + VS * k ∧ k < s.mem.length
+  sorted : s.openL.Pairwise (fun u u' => ∀ a a' : Int, s.heap[u]? = some (UvA.opn a) →
+    s.heap[u']? = some (UvA.opn a') → a' < a)
+  allOpen : ∀ u ∈ s.openL, ∃ a : Int, s.heap[u]? = some (UvA.opn a)
+  complete : ∀ (u : Nat) (a : Int), s.heap[u]? = some (UvA.opn a) → u ∈ s.openL
+
+theorem encUv_absUv (b : Int) (x : UvA) (h : ∀ a, x = UvA.opn a → ∃ k : Nat, a = b + VS * k) :
+    encUv b (absUv b x) = x := by
+  cases x with
+  | closed v => rfl
+  | opn a =>
+    obtain ⟨k, hk⟩ := h a rfl
+    subst hk
+    simp only [absUv, encUv]
+    congr 1
+    unfold VS; omega
+
+theorem WF_enc (s : CA) (h : WF s) :
+    s = enc s.base ⟨s.mem.drop ((s.sp - s.base) / VS).toNat, s.stale⟩ (abs s) := by
+  obtain ⟨n, hn, hnl⟩ := h.sp
+  obtain ⟨k, hk⟩ := h.fp
+  have en : ((s.sp - s.base) / VS).toNat = n := by rw [hn]; unfold VS; omega
+  have ek : ((s.fp - s.base) / VS).toNat = k := by rw [hk]; unfold VS; omega
+  cases s with
+  | mk base mem sp fp ups frames stale heap openL hs =>
+    simp only at hn hk en ek hnl
+    simp only [enc, abs, en, ek, CA.mk.injEq]
+    refine ⟨trivial, ?_, ?_, hk, trivial, ?_, trivial, ?_, trivial, trivial⟩
+    · simp
+    · rw [hn, List.length_take, Nat.min_eq_left hnl]
+    · rw [List.map_map]
+      conv => lhs; rw [← List.map_id frames]
+      apply List.map_congr_left
+      intro f hf
+      obtain ⟨kf, hkf⟩ := h.frames f hf
+      cases f with
+      | mk ffp fups =>
+        simp only at hkf
+        simp only [id, Function.comp, absFrame, encFrame]
+        congr 1
+        rw [hkf]; unfold VS; omega
+    · rw [List.map_map]
+      conv => lhs; rw [← List.map_id heap]
+      apply List.map_congr_left
+      intro x hx
+      simp only [id, Function.comp]
+      symm
+      apply encUv_absUv
+      intro a ha
+      obtain ⟨u, hu, hue⟩ := List.getElem_of_mem hx
+      obtain ⟨k', hk', _⟩ := h.heap u a (by rw [List.getElem?_eq_some_iff]; exact ⟨hu, by rw [hue, ha]⟩)
+      exact ⟨k', hk'⟩
+
+theorem getElem?_abs_heap (s : CA) (u : Nat) : (abs s).heap[u]? = (s.heap[u]?).map (absUv s.base) := by
+  simp [abs]
+
+/-- the direct description implies the representation invariant used by the theorems -/
+theorem InvA_of_WF (s : CA) (h : WF s) : InvA s := by
+  have key : ∀ (u slot : Nat), (abs s).heap[u]? = some (Uv.opn slot) →
+      ∃ a : Int, s.heap[u]? = some (UvA.opn a) ∧ a = s.base + VS * slot := by
+    intro u slot hu
+    rw [getElem?_abs_heap] at hu
+    cases hx : s.heap[u]? with
+    | none => simp [hx] at hu
+    | some x =>
+      cases x with
+      | closed v => simp [hx, absUv] at hu
+      | opn a =>
+        obtain ⟨k, hk, _⟩ := h.heap u a hx
+        simp [hx, absUv] at hu
+        refine ⟨a, rfl, ?_⟩
+        rw [hk] at hu ⊢
+        have : ((s.base + VS * (k : Int) - s.base) / VS).toNat = k := by unfold VS; omega
+        rw [this] at hu; subst hu; rfl
+  refine ⟨⟨_, abs s, WF_enc s h, ⟨?_, ?_, ?_⟩, ?_⟩⟩
+  · show (abs s).openL.Pairwise _
+    have : (abs s).openL = s.openL := rfl
+    rw [this]
+    refine h.sorted.imp ?_
+    intro u u' hab sl sl' h1 h2
+    obtain ⟨a, ha, hae⟩ := key u sl h1
+    obtain ⟨a', ha', hae'⟩ := key u' sl' h2
+    have := hab a a' ha ha'
+    rw [hae, hae'] at this
+    unfold VS at this; omega
+  · intro u hu
+    obtain ⟨a, ha⟩ := h.allOpen u hu
+    exact ⟨_, by rw [getElem?_abs_heap, ha]; rfl⟩
+  · intro u sl hu
+    obtain ⟨a, ha, _⟩ := key u sl hu
+    exact h.complete u a ha
+  · intro u sl hu
+    obtain ⟨a, ha, hae⟩ := key u sl hu
+    obtain ⟨k, hk, hkl⟩ := h.heap u a ha
+    have : k = sl := by rw [hae] at hk; unfold VS at hk; omega
+    omega
+
+/-- and conversely -/
+theorem WF_of_InvA (s : CA) (h : InvA s) : WF s := by
+  obtain ⟨j, c, hs, hi, hcap⟩ := h.repr
+  have hm : s.mem = c.stack ++ j.g := by rw [hs]; rfl
+  have hh : s.heap = c.heap.map (encUv s.base) := by rw [hs]; rfl
+  have hget : ∀ (u : Nat) (a : Int), s.heap[u]? = some (UvA.opn a) →
+      ∃ k : Nat, c.heap[u]? = some (Uv.opn k) ∧ a = s.base + VS * k := by
+    intro u a hu
+    rw [hh, List.getElem?_map] at hu
+    cases hx : c.heap[u]? with
+    | none => simp [hx] at hu
+    | some x =>
+      cases x with
+      | closed v => simp [hx, encUv] at hu
+      | opn k => simp [hx, encUv] at hu; exact ⟨k, rfl, hu.symm⟩
+  have hget' : ∀ (u k : Nat), c.heap[u]? = some (Uv.opn k) → s.heap[u]? = some (UvA.opn (s.base + VS * k)) := by
+    intro u k hu; rw [hh, List.getElem?_map, hu]; rfl
+  refine ⟨?_, ?_, ?_, ?_, ?_, ?_, ?_⟩
+  · exact ⟨c.stack.length, by rw [hs]; rfl, by rw [hm]; simp⟩
+  · exact ⟨c.fp, by rw [hs]; rfl⟩
+  · intro f hf
+    have : s.frames = c.frames.map (encFrame s.base) := by rw [hs]; rfl
+    rw [this, List.mem_map] at hf
+    obtain ⟨g, _, hg⟩ := hf
+    exact ⟨g.fp, by rw [← hg]; rfl⟩
+  · intro u a hu
+    obtain ⟨k, h1, h2⟩ := hget u a hu
+    exact ⟨k, h2, hcap u k h1⟩
+  · have : s.openL = c.openL := by rw [hs]; rfl
+    rw [this]
+    refine hi.sorted.imp ?_
+    intro u u' hab a a' h1 h2
+    obtain ⟨k, hk, hka⟩ := hget u a h1
+    obtain ⟨k', hk', hka'⟩ := hget u' a' h2
+    have := hab k k' hk hk'
+    rw [hka, hka']; unfold VS; omega
+  · intro u hu
+    have : s.openL = c.openL := by rw [hs]; rfl
+    rw [this] at hu
+    obtain ⟨k, hk⟩ := hi.allOpen u hu
+    exact ⟨_, hget' u k hk⟩
+  · intro u a hu
+    obtain ⟨k, hk, _⟩ := hget u a hu
+    have : s.openL = c.openL := by rw [hs]; rfl
+    rw [this]
+    exact hi.complete u k hk
+
 end Elk.Upvalue
